@@ -255,6 +255,17 @@ def check(case) -> list[Fail]:
         if table_now() != table:
             fails.append(Fail("table", f"after:{kind}", f"tracked={table_now()} reference={table}"))
             return fails
+        # the documented accessor: the wire of a tracked index, IndexError for holes and indices past the end
+        for i in range(len(table) + 2):
+            try:
+                w = t.tracked_wire(i)
+                got = (w.out_port().node.idx, w.out_port().offset)
+            except IndexError:
+                got = None
+            want = table[i] if i < len(table) else None
+            if got != want:
+                fails.append(Fail("tracked_wire", f"after:{kind}", f"index {i}: tracked_wire={got} reference={want}"))
+                return fails
         if ended:
             break
     if not ended:
